@@ -229,7 +229,7 @@ pub fn run_program(
     rich: bool,
     abstract_ts: bool,
     max_states: usize,
-) -> Result<(hist::SearchStats, Vec<(Vec<Op>, hist::Finding)>), String> {
+) -> Result<(hist::SearchStats, Vec<hist::Case>), String> {
     let search = Arc::new(Mutex::new(hist::Search::new(
         hist::alphabet(p, rich),
         depth,
@@ -251,6 +251,7 @@ pub fn run_program(
                     property: "C01",
                     step: h.len().saturating_sub(1),
                     what: format!("{:?}: {}", f.kind, f.msg),
+                    ..Default::default()
                 });
                 let mut s = search.lock().unwrap();
                 s.submit(h, rr);
@@ -350,7 +351,32 @@ pub fn check(property: &'static str) -> i32 {
                                         t.capped += 1;
                                     }
                                     drop(t);
-                                    for (h, f) in finds {
+                                    // wrong values observed in the same step
+                                    // as a classified stale read are its
+                                    // consequences
+                                    let mut classified: Vec<(hist::Case, Vec<String>)> = finds
+                                        .into_iter()
+                                        .map(|c| {
+                                            let t = hist::classify(&p, &c.hist, &c.acts, &c.finding);
+                                            (c, t)
+                                        })
+                                        .collect();
+                                    let snapshot = classified.clone();
+                                    for (c, t) in classified.iter_mut() {
+                                        if t.contains(&"stale-behind-changed-firewall".to_string()) {
+                                            for (c2, t2) in &snapshot {
+                                                if c2.hist == c.hist && c2.finding.step == c.finding.step {
+                                                    for tag in t2 {
+                                                        if tag.starts_with("F10") && !t.contains(tag) {
+                                                            t.push(tag.clone());
+                                                        }
+                                                    }
+                                                }
+                                            }
+                                        }
+                                    }
+                                    for (c, ctags) in classified {
+                                        let (h, f) = (c.hist, c.finding);
                                         if f.property != property {
                                             continue;
                                         }
@@ -363,7 +389,11 @@ pub fn check(property: &'static str) -> i32 {
                                                     .map(Op::short)
                                                     .collect::<Vec<_>>()
                                             ),
-                                            tags: tags_of(&p, &h, &f),
+                                            tags: {
+                                                let mut t = tags_of(&p, &h, &f);
+                                                t.extend(ctags);
+                                                t
+                                            },
                                             replay: json!({
                                                 "check": "c01",
                                                 "thorough": thorough,
